@@ -14,7 +14,17 @@ Further dimensions:
     children whose names differ from dest's in case / white space only (different names: they have to be added);
   * ordered pairs of features: something merge changes or cannot merge (same-named Section of another type,
     attributes to fill, values to convert) at a node, one conflict of every kind at a later / deeper node;
-  * random: 1-3 features, randomly thinned overlap, random naming mode, trees living in documents.
+  * random: 1-3 features, randomly thinned overlap, random naming mode, trees living in documents;
+  * merge histories (run_merge_history): the trees handed to merge are not fresh.  Histories of 2-4 merges that
+    involve the same objects (same source again / three times, a sub-tree first and then the whole tree and the
+    reverse, after unmerge / clean, a clone of the destination / of the source, a source that was a destination
+    before, a<-b b<-c a<-b, two sources into one destination, one source into two destinations, both directions,
+    Property.merge after the Section merge, two Properties merged twice) x an edit of source and / or destination
+    between the merges at every skeleton position (source gains a value / attribute / Property / Section, also
+    inside what the destination only has as a copy; source shrinks; a conflict is introduced; destination loses
+    what it gained, is emptied, grows) x strictness chosen per merge.  EVERY merge of a history is judged with
+    the full contract on snapshots taken around that one call: complete and conservative with respect to the
+    source as it is at that moment; a refused merge changed nothing.
 
 The oracle works on snapshots (rcc.harness, private fields) taken before and after the call and is written
 from the statement:
@@ -254,6 +264,39 @@ def check_sec_post(pre_d, pre_s, post, strict, path, problems):
         check_sec_post(dc if dc is not None else EMPTY_SEC, sc, cands[0], strict, path + '/' + nm, problems)
 
 
+# ---- the harness snapshot (harness.snap_sec / snap_prop with ids=True, parent=True), same fields and same
+# representation, with a short cut for the scalars that harness._val returns unchanged.  This module takes four
+# snapshots per judged merge; they dominate its running time.
+
+def _fv(v):
+    t = type(v)
+    if t is str or v is None or t is int:          # bool is not int here: it goes through harness._val
+        return v
+    return h._val(v)
+
+
+def _snap_prop(p, ids=True, parent=True):
+    d = {'kind': 'property'}
+    for f in h.PROP_FIELDS:
+        d[f] = _fv(getattr(p, f, '<unset>'))
+    d['values'] = tuple([_fv(v) for v in p._values])
+    d['parent'] = id(p._parent) if p._parent is not None else None
+    return d
+
+
+def _snap_sec(s, ids=True, parent=True):
+    d = {'kind': 'section'}
+    for f in h.SEC_FIELDS:
+        d[f] = _fv(getattr(s, f, '<unset>'))
+    d['parent'] = id(s._parent) if s._parent is not None else None
+    d['merged'] = id(s._merged) if getattr(s, '_merged', None) is not None else None
+    secs, props = list(list.__iter__(s._sections)), list(list.__iter__(s._props))
+    d['props'] = tuple([_snap_prop(p) for p in props])
+    d['sections'] = tuple([_snap_sec(c) for c in secs])
+    d['child_ids'] = tuple([id(c) for c in secs] + [id(c) for c in props])
+    return d
+
+
 _IDENTITY_KEYS = ('parent', 'merged', 'child_ids')
 
 
@@ -270,10 +313,18 @@ def _content(raw):
 def judge(col, name, kind_label, dest, src, strict, witness, feature, merge_fn, context=''):
     """Run dest.merge(src, strict) and evaluate the whole contract.  kind_label: 'section' | 'property'.
     context: suffix of the feature label naming the surroundings of the feature (name sharing mode ...)."""
-    snapper = h.snap_sec if kind_label == 'section' else h.snap_prop
+    snapper = _snap_sec if kind_label == 'section' else _snap_prop
     raw_d, raw_s = snapper(dest, True, True), snapper(src, True, True)      # one traversal serves both views
     pre_d, pre_s = _content(raw_d), _content(raw_s)
-    full_d, full_s = h.freeze(raw_d), h.freeze(raw_s)
+
+    def changed_since(raw_before, obj):
+        """None, or the first difference between the full snapshot taken before the call and obj now.  The raw
+        snapshot dicts are compared directly (nested dicts / tuples of tagged scalars); they are frozen only
+        to describe a difference."""
+        raw_now = snapper(obj, True, True)
+        if raw_now == raw_before:
+            return None
+        return h.diff(h.freeze(raw_before), h.freeze(raw_now))
     roots = [r for r in h.roots_of([dest, src]) if r is not dest and r is not src]
     full_roots = [h.snap(r) for r in roots]
     conflicts = []
@@ -293,7 +344,8 @@ def judge(col, name, kind_label, dest, src, strict, witness, feature, merge_fn, 
 
     raw_post = snapper(dest, True, True)
     if kind == 'exc':
-        changed = h.diff(full_d, h.freeze(raw_post)) or h.diff(full_s, h.snap(src))
+        changed = (None if raw_post == raw_d else h.diff(h.freeze(raw_d), h.freeze(raw_post))) \
+            or changed_since(raw_s, src)
         if not changed:
             for r, before in zip(roots, full_roots):
                 changed = changed or h.diff(before, h.snap(r))
@@ -309,7 +361,7 @@ def judge(col, name, kind_label, dest, src, strict, witness, feature, merge_fn, 
         fail('strict-conflict-raises-ValueError', '%s not-detected' % hard[0][1],
              'strict merge returned normally although src and dest conflict: %r' % (hard,))
         return 'returned'
-    d = h.diff(full_s, h.snap(src))
+    d = changed_since(raw_s, src)
     if d:
         fail('src-unchanged', feature, 'src changed: %s' % d)
     post = _content(raw_post)
@@ -396,9 +448,11 @@ SEC_FEATURES = [
 ]
 
 
-def skeleton_specs(shape, overlap=None, rnd=None):
+def skeleton_specs(shape, overlap=None, rnd=None, tuples=True):
     """Two parallel spec trees over the skeleton; returns (dest root, src root, [(dest node, src node)] pre-order).
-    overlap(k) -> 'both' | 'dest' | 'src' thins the skeleton (random pairs)."""
+    overlap(k) -> 'both' | 'dest' | 'src' thins the skeleton (random pairs).
+    tuples=False: the Property of the src-only Section is a string Property instead of a 2-tuple one (a Property
+    that may be merged a second time: the library refuses to merge a non-empty n-tuple Property into another one)."""
     pairs = []
     counter = itertools.count()
 
@@ -412,7 +466,8 @@ def skeleton_specs(shape, overlap=None, rnd=None):
         s = S(name, 't', definition='src def %d' % k if even else None, reference='shared ref' if even else 'src ref %d' % k,
               props=[P('pv', 'int', [1000, k + 100], unit='mV', uncertainty=0.5, definition=None if even else 'src pv def'),
                      P('ps', 'float', [k + 0.5], unit='s')],
-              secs=[S('sonly', 'st', definition='so', props=[P('q', '2-tuple', ['(1;2)'])],
+              secs=[S('sonly', 'st', definition='so',
+                      props=[P('q', '2-tuple', ['(1;2)']) if tuples else P('q', 'string', ['(1;2)'])],
                       secs=[S('deep', 'st', props=[P('r', 'date', [D1])])])])
         return d, s
 
@@ -784,3 +839,674 @@ def _tag(v):
     if v is None:
         return 'unset'
     return {'some text': 'a', 'Some  Text ': 'a-other-case-whitespace', 'other': 'b'}.get(v, repr(v))
+
+
+# ---------------------------------------------------------------------------------------------
+# merge histories: the objects handed to merge are not fresh.  They have been merged before (with each other,
+# with parts of each other, with a third tree, in the other direction), have been cloned, unmerged, cleaned and
+# edited since.  The statement is a contract of every single call: after EVERY successful merge the destination
+# is complete and conservative with respect to the source *as it is at that moment*, a refused one changes
+# nothing - whatever happened to the two trees before.  So every merge of a history is judged by the same
+# oracle (judge) on snapshots taken immediately before and after that call.
+# ---------------------------------------------------------------------------------------------
+
+class _NotApplicable(Exception):
+    """The object an edit wants to change is not there (any more)."""
+
+
+def _child(sec, name):
+    for c in list.__iter__(sec._sections):
+        if c._name == name:
+            return c
+    raise _NotApplicable('no Section %r' % (name,))
+
+
+def _prop(sec, name):
+    for p in list.__iter__(sec._props):
+        if p._name == name:
+            return p
+    raise _NotApplicable('no Property %r' % (name,))
+
+
+def _at(root, path):
+    for nm in path:
+        root = _child(root, nm)
+    return root
+
+
+def node_paths(shape):
+    """Name path of every skeleton node, in the pre-order numbering of skeleton_specs."""
+    out = [()]
+
+    def rec(forest, up):
+        for j, sub in enumerate(forest):
+            path = up + ('n%d' % j,)
+            out.append(path)
+            rec(sub, path)
+    rec(shape, ())
+    return out
+
+
+# ---- edits between two merges (public API only).  d, s: the Sections of the dest / src tree at one skeleton
+# position, k: its pre-order number (the skeleton gives it pv = [k, 1000] in dest and [1000, k + 100] in src, a
+# Property 'ps' and a Section 'sonly' / 'sonly/deep' on the src side only, 'pd' and 'donly' on the dest side only)
+
+def _e_src_value(d, s, k):
+    _prop(s, 'pv').append(k + 500)
+
+
+def _e_src_value_of_one_sided_property(d, s, k):
+    _prop(s, 'ps').append(k + 7.25)
+
+
+def _e_src_attributes(d, s, k):
+    _prop(s, 'ps').definition = 'late def'
+    _prop(s, 'pv').reference = 'late ref'
+
+
+def _e_src_property(d, s, k):
+    odml.Property(name='late', dtype='string', values=['late %d' % k], unit='s', parent=s)
+
+
+def _e_src_section(d, s, k):
+    c = odml.Section(name='latesec', type='lt', definition='late', parent=s)
+    odml.Property(name='lp', dtype='int', values=[k], parent=c)
+    odml.Section(name='latedeep', type='lt', parent=c)
+
+
+def _e_src_one_sided_section_grows(d, s, k):
+    so = _child(s, 'sonly')
+    odml.Property(name='late', dtype='float', values=[1.5], parent=so)
+    _prop(so, 'q').append('(5;6)')
+    deep = _child(so, 'deep')
+    odml.Section(name='deeper', type='st', parent=deep)
+    _prop(deep, 'r').append(D2)
+
+
+def _e_src_section_attributes(d, s, k):
+    deep = _child(_child(s, 'sonly'), 'deep')
+    deep.definition = 'late def'
+    deep.reference = 'late ref'
+
+
+def _e_src_shrinks(d, s, k):
+    _prop(s, 'pv').remove(k + 100)
+    s.remove(_prop(s, 'ps'))
+    so = _child(s, 'sonly')
+    so.remove(_child(so, 'deep'))
+
+
+def _e_src_property_conflict(d, s, k):
+    pv = _prop(s, 'pv')
+    pv.unit = 'kg'
+    pv.append(k + 500)
+
+
+def _e_src_section_conflict(d, s, k):
+    so = _child(s, 'sonly')
+    so.definition = 'changed'
+    odml.Property(name='late', values=[1], parent=so)
+
+
+def _e_src_section_type_changes(d, s, k):
+    _child(s, 'sonly').type = 'other'
+
+
+def _e_dest_loses_gained_value(d, s, k):
+    _prop(d, 'pv').remove(k + 100)
+
+
+def _e_dest_loses_gained_property(d, s, k):
+    d.remove(_prop(d, 'ps'))
+
+
+def _e_dest_loses_gained_section(d, s, k):
+    d.remove(_child(d, 'sonly'))
+
+
+def _e_dest_loses_deep_gained_section(d, s, k):
+    so = _child(d, 'sonly')
+    so.remove(_child(so, 'deep'))
+
+
+def _e_dest_loses_filled_attributes(d, s, k):
+    pv = _prop(d, 'pv')
+    pv.uncertainty = None
+    pv.unit = None
+    d.definition = None
+    _child(d, 'sonly').definition = None
+
+
+def _e_dest_property_emptied(d, s, k):
+    _prop(d, 'pv').values = []
+
+
+def _e_dest_gained_property_loses_value(d, s, k):
+    _prop(d, 'ps').remove(k + 0.5)
+
+
+def _e_dest_grows(d, s, k):
+    so = _child(d, 'sonly')
+    odml.Property(name='mine', values=['m'], parent=so)
+    odml.Section(name='minesec', type='m', parent=so)
+    _prop(d, 'pv').append(k + 900)
+    _prop(d, 'pd').append('more')
+
+
+def _e_dest_property_conflict(d, s, k):
+    _prop(d, 'ps').unit = 'kg'
+
+
+SRC_EDITS = [
+    ('src-property-gains-value', _e_src_value),
+    ('src-one-sided-property-gains-value', _e_src_value_of_one_sided_property),
+    ('src-properties-gain-attributes', _e_src_attributes),
+    ('src-gains-property', _e_src_property),
+    ('src-gains-section', _e_src_section),
+    ('src-one-sided-section-grows', _e_src_one_sided_section_grows),
+    ('src-deep-section-gains-attributes', _e_src_section_attributes),
+    ('src-shrinks', _e_src_shrinks),
+    ('src-property-conflict-introduced', _e_src_property_conflict),
+    ('src-section-conflict-introduced', _e_src_section_conflict),
+    ('src-section-type-changes', _e_src_section_type_changes),
+]
+DEST_EDITS = [
+    ('dest-loses-gained-value', _e_dest_loses_gained_value),
+    ('dest-loses-gained-property', _e_dest_loses_gained_property),
+    ('dest-loses-gained-section', _e_dest_loses_gained_section),
+    ('dest-loses-deep-gained-section', _e_dest_loses_deep_gained_section),
+    ('dest-loses-filled-attributes', _e_dest_loses_filled_attributes),
+    ('dest-property-emptied', _e_dest_property_emptied),
+    ('dest-gained-property-loses-value', _e_dest_gained_property_loses_value),
+    ('dest-grows', _e_dest_grows),
+    ('dest-property-conflict-introduced', _e_dest_property_conflict),
+]
+EDITS = dict(SRC_EDITS + DEST_EDITS)
+CONFLICT_EDITS = ('src-property-conflict-introduced', 'src-section-conflict-introduced',
+                  'src-section-type-changes', 'dest-property-conflict-introduced')
+# the edits every history kind is combined with (each alone)
+CORE_EDITS = ['src-property-gains-value', 'src-gains-property', 'src-one-sided-section-grows',
+              'dest-loses-gained-value', 'dest-loses-gained-section', 'src-property-conflict-introduced']
+
+
+def third_spec(sroot):
+    """A third tree over the same skeleton: everything src has (so: no conflict with either tree), one more value
+    in every shared Property, one more Property and one more child Section at every skeleton node."""
+    def rec(s, top):
+        c = S('third' if top else s['name'], s['type'], s['definition'], s['reference'],
+              props=[dict(p, values=list(p['values'])) for p in s['props']],
+              secs=[rec(x, False) for x in s['secs']])
+        if any(p['name'] == 'pv' for p in c['props']):
+            for p in c['props']:
+                if p['name'] == 'pv':
+                    p['values'].append(7000)
+            c['props'].append(P('pc', 'int', [9], definition='only in third'))
+            c['secs'].append(S('tonly', 'tt', props=[P('q', 'int', [3])]))
+        return c
+    return rec(sroot, True)
+
+
+class _Trees(object):
+    """Specs of one generated pair (+ the third tree); builds fresh object trees on demand."""
+    def __init__(self, shape, injections=(), mode='none', attached=False, tuples=False):
+        droot, sroot, pairs = skeleton_specs(shape, tuples=tuples)
+        for pos, feature, where in injections:
+            inject(pairs[pos], feature, where)
+        share_names(droot, sroot, mode)
+        self.dspec, self.sspec, self.tspec = droot, sroot, third_spec(sroot)
+        self.attached = attached
+        self.doc = None
+
+    def _build(self, spec, rename=None):
+        if rename:
+            spec = dict(spec, name=rename)
+        with h.quiet():
+            if not self.attached:
+                return build_sec(spec)
+            if self.doc is None:
+                self.doc = odml.Document()
+                self.host = odml.Section(name='host', type='t', parent=self.doc)
+                odml.Section(name='bystander', type='t', parent=self.doc)
+                return build_sec(spec, self.host)
+            return build_sec(spec, self.doc)
+
+    def dest(self):
+        return self._build(self.dspec)
+
+    def dest2(self):
+        return self._build(self.dspec, 'root2')
+
+    def src(self):
+        return self._build(self.sspec)
+
+    def third(self):
+        return self._build(self.tspec)
+
+
+class _History(object):
+    """One history: judges and counts every merge, applies the edits, keeps a log for the witness."""
+    def __init__(self, col, name, kind, wit, edits, path, k, strict, cls_extra=()):
+        self.col, self.name, self.kind, self.wit = col, name, kind, wit
+        self.edits, self.path, self.k, self.strict = list(edits), path, k, list(strict)
+        self.cls_extra = cls_extra
+        self.step = 0
+        self.log = []
+        self.label = '+'.join(self.edits) or 'no-edit'
+
+    def merge(self, dest, src, what, kind_label='section'):
+        strict = self.strict[min(self.step, len(self.strict) - 1)]
+        self.step += 1
+        wit = dict(self.wit, history=self.kind, merge_number=self.step, merge=what, before=list(self.log))
+        outcome = judge(self.col, self.name, kind_label, dest, src, strict, wit, self.wit.get('feature') or self.label,
+                        dest.merge, context=' | history: %s' % self.kind)
+        self.log.append('%s strict=%s -> %s' % (what, strict, outcome))
+        self.col.case(cls_key=(self.kind, self.step, what, strict, outcome, self.label) + self.cls_extra,
+                      sample='%s: %s' % (self.kind, '; '.join(self.log)) if self.step > 1 else None)
+        return outcome
+
+    def do(self, what, fn, *args):
+        """A library call that is part of the history but is not judged here (unmerge, clean, clone)."""
+        kind, res = h.call(fn, *args)
+        self.log.append('%s%s' % (what, '' if kind == 'ret' else ' raised %s' % type(res).__name__))
+        return res if kind == 'ret' else None
+
+    def edit(self, dest_root, src_root):
+        for label in self.edits:
+            try:
+                with h.quiet():
+                    EDITS[label](_at(dest_root, self.path), _at(src_root, self.path), self.k)
+                self.log.append(label)
+            except _NotApplicable as exc:
+                self.log.append('%s not applicable (%s)' % (label, exc))
+            except Exception as exc:       # noqa  - an edit the library refuses is simply not part of the history
+                self.log.append('%s refused (%s)' % (label, type(exc).__name__))
+
+
+# ---- history kinds.  t: _Trees, H: _History.  A = destination tree, B = source tree, C = third tree.
+
+def _k_same_source_again(H, t):
+    A, B = t.dest(), t.src()
+    H.merge(A, B, 'A<-B')
+    H.edit(A, B)
+    H.merge(A, B, 'A<-B')
+
+
+def _k_same_source_three_times(H, t):
+    A, B = t.dest(), t.src()
+    H.merge(A, B, 'A<-B')
+    H.edit(A, B)
+    H.merge(A, B, 'A<-B')
+    with h.quiet():
+        try:
+            _e_src_section(_at(A, H.path), _at(B, H.path), H.k)
+            _e_dest_loses_gained_property(_at(A, H.path), _at(B, H.path), H.k)
+        except Exception:       # noqa
+            pass
+    H.merge(A, B, 'A<-B')
+
+
+def _k_subtree_first(H, t):
+    A, B = t.dest(), t.src()
+    H.merge(_at(A, H.sub), _at(B, H.sub), 'A.sub<-B.sub')
+    H.edit(A, B)
+    H.merge(A, B, 'A<-B')
+
+
+def _k_whole_then_subtree(H, t):
+    A, B = t.dest(), t.src()
+    H.merge(A, B, 'A<-B')
+    H.edit(A, B)
+    H.merge(_at(A, H.sub), _at(B, H.sub), 'A.sub<-B.sub')
+
+
+def _k_after_unmerge(H, t):
+    A, B = t.dest(), t.src()
+    H.merge(A, B, 'A<-B')
+    H.do('A.unmerge(B)', A.unmerge, B)
+    H.edit(A, B)
+    H.merge(A, B, 'A<-B')
+
+
+def _k_after_clean(H, t):
+    A, B = t.dest(), t.src()
+    H.merge(A, B, 'A<-B')
+    H.do('A.clean()', A.clean)
+    H.edit(A, B)
+    H.merge(A, B, 'A<-B')
+
+
+def _k_clone_of_dest(H, t):
+    A, B = t.dest(), t.src()
+    H.merge(A, B, 'A<-B')
+    A2 = H.do('A.clone()', A.clone)
+    if A2 is None:
+        return
+    H.edit(A2, B)
+    H.merge(A2, B, 'clone(A)<-B')
+    H.merge(A, B, 'A<-B')
+
+
+def _k_clone_of_src(H, t):
+    A, B = t.dest(), t.src()
+    H.merge(A, B, 'A<-B')
+    B2 = H.do('B.clone()', B.clone)
+    if B2 is None:
+        return
+    H.edit(A, B2)
+    H.merge(A, B2, 'A<-clone(B)')
+
+
+def _k_source_was_destination(H, t):
+    A, B, C = t.dest(), t.src(), t.third()
+    H.merge(B, C, 'B<-C')
+    H.merge(A, B, 'A<-B')
+    H.edit(A, B)
+    H.merge(A, B, 'A<-B')
+
+
+def _k_chain(H, t):
+    A, B, C = t.dest(), t.src(), t.third()
+    H.merge(A, B, 'A<-B')
+    H.merge(B, C, 'B<-C')
+    H.edit(A, B)
+    H.merge(A, B, 'A<-B')
+
+
+def _k_two_sources(H, t):
+    A, B, C = t.dest(), t.src(), t.third()
+    H.merge(A, B, 'A<-B')
+    H.merge(A, C, 'A<-C')
+    H.edit(A, B)
+    H.merge(A, B, 'A<-B')
+
+
+def _k_mutual(H, t):
+    A, B = t.dest(), t.src()
+    H.merge(A, B, 'A<-B')
+    H.merge(B, A, 'B<-A')
+    H.edit(A, B)
+    H.merge(A, B, 'A<-B')
+
+
+def _k_two_destinations(H, t):
+    A, B, A2 = t.dest(), t.src(), t.dest2()
+    H.merge(A, B, 'A<-B')
+    H.merge(A2, B, 'A2<-B')
+    H.edit(A, B)
+    H.merge(A, B, 'A<-B')
+    H.merge(A2, B, 'A2<-B')
+
+
+def _k_property_after_section(H, t):
+    A, B = t.dest(), t.src()
+    H.merge(A, B, 'A<-B')
+    H.edit(A, B)
+    for pname in ('pv', 'ps'):
+        try:
+            dp, sp = _prop(_at(A, H.path), pname), _prop(_at(B, H.path), pname)
+        except _NotApplicable:
+            continue
+        H.merge(dp, sp, 'A.%s<-B.%s' % (pname, pname), kind_label='property')
+
+
+KINDS = [
+    ('same-source-again', _k_same_source_again, 2),
+    ('same-source-three-times', _k_same_source_three_times, 3),
+    ('subtree-first', _k_subtree_first, 2),
+    ('whole-then-subtree', _k_whole_then_subtree, 2),
+    ('after-unmerge', _k_after_unmerge, 2),
+    ('after-clean', _k_after_clean, 2),
+    ('clone-of-dest', _k_clone_of_dest, 3),
+    ('clone-of-src', _k_clone_of_src, 2),
+    ('source-was-destination', _k_source_was_destination, 3),
+    ('chain', _k_chain, 3),
+    ('two-sources', _k_two_sources, 3),
+    ('mutual', _k_mutual, 3),
+    ('two-destinations', _k_two_destinations, 4),
+    ('property-after-section', _k_property_after_section, 3),
+]
+KIND = {k[0]: k for k in KINDS}
+SUBTREE_KINDS = ('subtree-first', 'whole-then-subtree')
+
+
+def _strict_patterns(n, conflict):
+    """all strict, all lenient; a conflict left behind by a lenient merge / introduced since must be refused by a
+    strict one afterwards, and a refusal must not spoil the lenient merge that follows."""
+    pats = [(True,) * n, (False,) * n]
+    if conflict:
+        pats += [(False,) * (n - 1) + (True,), (True,) * (n - 1) + (False,)]
+    return pats
+
+
+def _history(col, name, kind, shape, pos, edits, strict, sub=None, injections=(), mode='none', attached=False,
+             feature=None, tuples=False, rand=None):
+    paths = node_paths(shape)
+    wit = {'shape': repr(shape), 'position': pos, 'edits': list(edits), 'strict': list(strict), 'names': mode}
+    if feature:
+        wit['feature'] = feature
+    if sub is not None:
+        wit['subtree'] = sub
+    if attached:
+        wit['attached'] = True
+    if tuples:
+        wit['tuple_property_in_src_only_section'] = True
+    if rand is not None:
+        wit['random'] = rand
+    extra = (position_class(shape, pos), feature, mode, attached, tuples,
+             None if sub is None else position_class(shape, sub))
+    H = _History(col, name, kind, wit, edits, paths[pos], pos, strict, extra)
+    H.sub = paths[sub] if sub is not None else None
+    t = _Trees(shape, injections, mode, attached, tuples)
+    try:
+        KIND[kind][1](H, t)
+    except _NotApplicable as exc:
+        H.log.append('history cut short: %s' % exc)
+    return H
+
+
+def _subtree_of(shape, a, b):
+    """Is skeleton node b the node a or below it?"""
+    pa, pb = node_paths(shape)[a], node_paths(shape)[b]
+    return pb[:len(pa)] == pa
+
+
+def run_merge_history(tier, seed):
+    name = 'C13.merge_history'
+    quick = tier == 'quick'
+    all_edits = [e[0] for e in SRC_EDITS + DEST_EDITS]
+    col = Col(name, rule='histories of 2-4 merges over the skeleton pairs of run_section_merge (+ a third tree over the '
+                         'same skeleton); EVERY merge of a history is judged with the full contract on snapshots taken '
+                         'around that call.  %d history kinds (same source again / three times, sub-tree first then the '
+                         'whole and the reverse, after unmerge / clean, clone of dest / of src, source that was a '
+                         'destination before, a<-b b<-c a<-b, two sources, mutual, two destinations, Property merge after '
+                         'the Section merge) x edit between the merges at every skeleton position (%d src edits: gains '
+                         'value / attribute / Property / Section at the node and inside a Section dest only has as a '
+                         'copy, shrinks, conflict introduced; %d dest edits: loses a gained value / Property / Section / '
+                         'filled attribute, emptied, grows, conflict introduced; none) x strictness per merge (all '
+                         'strict, all lenient, lenient then strict, strict then lenient); (1) same-source-again: every '
+                         'edit alone at every position of every shape, every src edit x dest edit pair; (2) every other '
+                         'kind x core edits; (3) same-source-again x injected conflict / conversion features x edits; '
+                         '(4) naming modes, trees in documents; (5) random: kind, shape, position, 0-3 edits, strictness '
+                         'per merge, feature, naming mode; distinct = (kind, merge number, strict, outcome, edits, '
+                         'position class, feature, names)' % (len(KINDS), len(SRC_EDITS), len(DEST_EDITS)),
+              exhaustive=True)
+    if quick:
+        shapes = [s for s in h.tree_shapes(2) if count_nodes(s) == 2]         # two siblings; chain of two
+    else:
+        shapes = [s for s in h.tree_shapes(3) if count_nodes(s) >= 1]
+    small = [s for s in h.tree_shapes(2) if count_nodes(s) == 2]
+    chain2 = (((),),)
+
+    # ---- (1) the same source again: every edit alone, everywhere
+    for shape in shapes:
+        for pos in range(count_nodes(shape) + 1):
+            for edits in [()] + [(e,) for e in all_edits]:
+                conflict = bool(edits) and edits[0] in CONFLICT_EDITS
+                for strict in _strict_patterns(2, conflict):
+                    _history(col, name, 'same-source-again', shape, pos, edits, strict)
+    #      ... and every src edit together with every dest edit
+    for shape in ([chain2] if quick else small):
+        for pos in range(count_nodes(shape) + 1):
+            if quick and pos != count_nodes(shape):
+                continue
+            for se, _ in SRC_EDITS:
+                for de, _ in DEST_EDITS:
+                    if quick and (se not in CORE_EDITS or de not in CORE_EDITS):
+                        continue
+                    conflict = se in CONFLICT_EDITS or de in CONFLICT_EDITS
+                    for strict in _strict_patterns(2, conflict):
+                        _history(col, name, 'same-source-again', shape, pos, (se, de), strict)
+    # ---- (2) the other kinds x core edits (thorough: all edits on the shapes of up to two nodes)
+    for kind, _, n in KINDS[1:]:
+        for shape in ([chain2] if quick else shapes):
+            nn = count_nodes(shape)
+            for pos in range(nn + 1):
+                subs = [None]
+                if kind in SUBTREE_KINDS:
+                    # the sub-tree merged on its own: every node that contains the edited one, the root excepted
+                    subs = [a for a in range(1, nn + 1) if _subtree_of(shape, a, pos)] or \
+                           [a for a in range(1, nn + 1) if a == nn]
+                for sub in subs:
+                    pool = all_edits if (not quick and nn <= 2) else CORE_EDITS
+                    for edits in [()] + [(e,) for e in pool]:
+                        conflict = bool(edits) and edits[0] in CONFLICT_EDITS
+                        pats = _strict_patterns(n, conflict)
+                        if quick:
+                            pats = pats[:2] if not conflict else pats[:3]
+                        for strict in pats:
+                            _history(col, name, kind, shape, pos, edits, strict, sub=sub)
+    # ---- (3) what the first merge leaves behind when the trees are in conflict / need conversion
+    feats = CORE + ['dtype-conflict-int-into-string', 'dest-empty-no-dtype', 'fill-uncertainty-zero',
+                    'section-definition-conflict', 'section-same-name-different-type']
+    for shape in ([chain2] if quick else small):
+        nn = count_nodes(shape)
+        for pos in range(nn + 1):
+            if pos not in (0, nn):
+                continue
+            for fl in feats:
+                if pos == 0 and fl == 'section-same-name-different-type':
+                    continue
+                for kind in ('same-source-again',) if quick else ('same-source-again', 'after-unmerge', 'clone-of-dest',
+                                                                  'chain', 'mutual'):
+                    for edits in [(), ('src-property-gains-value',)] + ([] if quick else [('dest-loses-gained-value',)]):
+                        for strict in _strict_patterns(KIND[kind][2], True):
+                            _history(col, name, kind, shape, pos, edits, strict,
+                                     injections=[(pos, _feature(fl), 'first')], feature=fl)
+    # ---- (4) names shared between Properties and Sections; trees living in a document
+    for mode in (['all-names-shared'] if quick else SHARING[1:]):
+        for kind in (('same-source-again', 'subtree-first') if quick else [k[0] for k in KINDS]):
+            for shape in [chain2]:
+                nn = count_nodes(shape)
+                for edits in [(e,) for e in (CORE_EDITS[:3] if quick else CORE_EDITS)]:
+                    for strict in _strict_patterns(KIND[kind][2], False)[:1 if quick else 2]:
+                        _history(col, name, kind, shape, nn, edits, strict, mode=mode,
+                                 sub=nn if kind in SUBTREE_KINDS else None)
+    for kind in (('same-source-again', 'chain') if quick else [k[0] for k in KINDS]):
+        for edits in [(e,) for e in (CORE_EDITS[:2] if quick else CORE_EDITS)]:
+            for strict in _strict_patterns(KIND[kind][2], edits[0] in CONFLICT_EDITS):
+                _history(col, name, kind, chain2, 2, edits, strict, attached=True,
+                         sub=2 if kind in SUBTREE_KINDS else None)
+    # ---- (5) random
+    rnd = random.Random('c13-history-%s' % seed)
+    rshapes = [s for s in h.tree_shapes(3) if count_nodes(s) >= 1]
+    features = [f[0] for f in PROP_FEATURES + SEC_FEATURES]
+    for i in range(60 if quick else 3000):
+        kind, _, n = rnd.choice(KINDS)
+        shape = rnd.choice(rshapes)
+        nn = count_nodes(shape)
+        pos = rnd.randrange(nn + 1)
+        edits = tuple(rnd.sample(all_edits, rnd.choice([0, 1, 1, 2, 2, 3])))
+        strict = tuple(rnd.random() < 0.5 for _ in range(n))
+        sub = None
+        if kind in SUBTREE_KINDS:
+            sub = rnd.randrange(1, nn + 1)
+        inj, fl = (), None
+        if rnd.random() < 0.4:
+            fl = rnd.choice(features)
+            fpos = rnd.randrange(nn + 1)
+            if not (fpos == 0 and fl in ('section-same-name-different-type', 'section-type-case-only')):
+                inj = [(fpos, _feature(fl), rnd.choice(['first', 'last']))]
+            else:
+                fl = None
+        mode = rnd.choice(SHARING) if rnd.random() < 0.3 else 'none'
+        _history(col, name, kind, shape, pos, edits, strict, sub=sub, injections=inj, mode=mode,
+                 attached=rnd.random() < 0.2, feature=fl, tuples=rnd.random() < 0.15, rand=[seed, i])
+    # ---- (6) two Properties merged twice (detached, and living in Sections one of which has been merged before)
+    for feature in PROP_FEATURES:
+        for edit in PROP_EDITS:
+            for attached in (False, True):
+                for strict in _strict_patterns(2, True):
+                    _property_history(col, name, feature, edit, attached, strict)
+    return col.result()
+
+
+def _pe_none(dp, sp):
+    pass
+
+
+def _pe_dest_loses_last_value(dp, sp):
+    vals = list(dp._values)
+    if not vals:
+        raise _NotApplicable('no value')
+    dp.remove(dp.values[-1])
+
+
+def _pe_dest_loses_attributes(dp, sp):
+    dp.unit = None
+    dp.uncertainty = None
+    dp.definition = None
+    dp.reference = None
+    dp.value_origin = None
+
+
+def _pe_src_gains_unset_attributes(dp, sp):
+    # only what is unset on both sides: no conflict is introduced
+    for attr, val in (('unit', 'mV'), ('uncertainty', 0.25), ('definition', 'late def'), ('reference', 'late ref'),
+                      ('value_origin', 'late.dat')):
+        if getattr(sp, '_' + attr) is None and getattr(dp, '_' + attr) is None:
+            setattr(sp, attr, val)
+
+
+def _pe_src_repeats_its_values(dp, sp):
+    vals = sp.values
+    if not vals:
+        raise _NotApplicable('no value')
+    sp.values = vals + vals[:1]
+
+
+PROP_EDITS = [('no-edit', _pe_none), ('dest-loses-last-value', _pe_dest_loses_last_value),
+              ('dest-loses-attributes', _pe_dest_loses_attributes),
+              ('src-gains-unset-attributes', _pe_src_gains_unset_attributes),
+              ('src-repeats-a-value', _pe_src_repeats_its_values)]
+
+
+def _property_history(col, name, feature, edit, attached, strict):
+    kind = 'property-twice-in-merged-sections' if attached else 'property-twice'
+    wit = {'feature': feature[0], 'edits': [edit[0]], 'strict': list(strict), 'attached': attached}
+    with h.quiet():
+        if attached:
+            sd, ss = odml.Section(name='sd', type='t'), odml.Section(name='ss', type='t')
+            odml.Property(name='other', values=[1], parent=sd)
+            odml.Property(name='other', values=[2], parent=ss)
+            dest, src = build_prop(feature[1]), build_prop(feature[2])
+            h.call(sd.merge, ss, False)            # before the two Properties arrive: the Sections are 'merged'
+            sd.append(dest)
+            ss.append(src)
+        else:
+            dest, src = build_prop(feature[1]), build_prop(feature[2])
+    log = []
+    for step in (1, 2):
+        w = dict(wit, history=kind, merge_number=step, before=list(log))
+        outcome = judge(col, name, 'property', dest, src, strict[step - 1], w, feature[0], dest.merge,
+                        context=' | history: %s' % kind)
+        log.append('dest<-src strict=%s -> %s' % (strict[step - 1], outcome))
+        applied = True
+        if step == 1:
+            try:
+                with h.quiet():
+                    edit[1](dest, src)
+                log.append(edit[0])
+            except Exception:       # noqa
+                applied = False
+                log.append('%s not applied' % edit[0])
+        col.case(cls_key=(kind, step, feature[0], edit[0], strict[step - 1], outcome, applied))
